@@ -355,9 +355,11 @@ class StoreCheck(object):
         self.nt = set(nontrivial_kinds)
         self.scratch = tlc.Scratch()
         self.filters = None
+        self.all_exhaustive = True
 
     def close(self):
         self.scratch.close()
+        self.rep.exhaustive = bool(self.rep.exhaustive and self.all_exhaustive)
 
     def _filters(self):
         """FilterDef evaluated by TLC (single source of truth for the filters used by model and harness)."""
@@ -398,6 +400,7 @@ class StoreCheck(object):
                     seen.add(p)
                     paths.append(list(p))
             exhaustive = False
+        self.all_exhaustive = self.all_exhaustive and exhaustive
         self.rep.extra.setdefault('generating', []).append(
             {'config': name, 'graph_states': len(g.states), 'complete_paths': total, 'paths_replayed': len(paths),
              'all_paths': exhaustive, 'cassette_configs': list(configs)})
